@@ -80,12 +80,12 @@ type c17Tx struct {
 type c17Model struct {
 	txs []c17Tx
 	// captured at the boundary after block k
-	have      bool
-	base      *big.Int
-	params    feemarkettypes.Params
-	gCands    map[uint64]bool
-	maxGas    int64
-	preParams feemarkettypes.Params
+	have             bool
+	base             *big.Int
+	params           feemarkettypes.Params
+	gCands           map[uint64]bool
+	maxGas           int64
+	preParams        feemarkettypes.Params
 	figureValid      bool
 	noBaseFeeAtBegin bool
 }
